@@ -152,6 +152,7 @@ const (
 	OpStore
 	OpApp // uninterpreted function
 	OpConstArray
+	OpForall // Args[0] = bound variable (OpVar), Args[1] = body
 	OpIntAdd
 	OpIntSub
 	OpIntMul
@@ -765,6 +766,13 @@ func (ts *TermStore) Select(arr, idx *Term) *Term {
 	return ts.mk(&Term{Op: OpSelect, Sort: arr.Sort.Elem, Args: []*Term{arr, idx}})
 }
 
+func (ts *TermStore) Forall(v, body *Term) *Term {
+	if body.IsTrue() {
+		return body
+	}
+	return ts.mk(&Term{Op: OpForall, Sort: BoolSort, Args: []*Term{v, body}})
+}
+
 func (ts *TermStore) ConstArray(s *Sort, v *Term) *Term {
 	return ts.mk(&Term{Op: OpConstArray, Sort: s, Args: []*Term{v}})
 }
@@ -1046,6 +1054,8 @@ func termHead(t *Term, sub func(*Term) string) string {
 		return fmt.Sprintf("((_ to_fp %s) %s)", fpDims(t.Sort), sub(t.Args[0]))
 	case OpConstArray:
 		return fmt.Sprintf("((as const %s) %s)", t.Sort, sub(t.Args[0]))
+	case OpForall:
+		return fmt.Sprintf("(forall ((%s %s)) %s)", smtSym(t.Args[0].Name), t.Args[0].Sort, sub(t.Args[1]))
 	}
 	n, ok := opNames[t.Op]
 	if !ok {
@@ -1091,11 +1101,43 @@ func (ts *TermStore) SMTScript(asserts []*Term, getModel []*Term, extraDecls str
 	for _, a := range getModel {
 		visit(a)
 	}
+	// nodes that mention a bound variable must stay inside their quantifier
+	boundVars := map[*Term]bool{}
+	for _, t := range order {
+		if t.Op == OpForall {
+			boundVars[t.Args[0]] = true
+		}
+	}
+	dep := map[*Term]bool{}
+	if len(boundVars) > 0 {
+		for _, t := range order { // order is post-order: children first
+			if boundVars[t] {
+				dep[t] = true
+				continue
+			}
+			for _, a := range t.Args {
+				if dep[a] {
+					dep[t] = true
+					break
+				}
+			}
+			if t.Op == OpForall {
+				// the quantifier closes its variable (other bound variables may still occur)
+				d := false
+				for _, bv := range ts.Vars(t.Args[1]) {
+					if boundVars[bv] && bv != t.Args[0] {
+						d = true
+					}
+				}
+				dep[t] = d
+			}
+		}
+	}
 	// declarations
 	usedDecl := map[string]bool{}
 	usedSorts := map[string]bool{}
 	for _, t := range order {
-		if t.Op == OpVar || t.Op == OpApp {
+		if (t.Op == OpVar && !boundVars[t]) || t.Op == OpApp {
 			usedDecl[t.Name] = true
 		}
 	}
@@ -1152,7 +1194,7 @@ func (ts *TermStore) SMTScript(asserts []*Term, getModel []*Term, extraDecls str
 		if len(t.Args) == 0 {
 			continue
 		}
-		if ref[t] > 1 {
+		if ref[t] > 1 && !dep[t] {
 			n := fmt.Sprintf("t%d", t.id)
 			fmt.Fprintf(&sb, "(define-fun %s () %s %s)\n", n, t.Sort, termHead(t, render))
 			named[t] = n
